@@ -557,8 +557,18 @@ def r_cachedep(ctx) -> None:
     ctx.floor('R-CACHEDEP.methods', n, 1)
 
 
+def structure(ctx) -> None:
+    prog = ctx.prog
+    fam = [m for m in prog.modules if m in FAMILY_MODULES]
+    n = shared.r_operand(ctx, list(prog.functions(fam)))
+    ctx.floor('R-OPERAND', n, 25)
+    n = shared.r_fieldpos(ctx, [c for c in prog.classes.values() if c.module.name in FAMILY_MODULES])
+    ctx.floor('R-FIELDPOS', n, 20)
+
+
 def run(ctx) -> None:
     tenv = types.TypeEnv(ctx.prog)
+    structure(ctx)
     r_memokey(ctx)
     r_cachedep(ctx)
     native_identity(ctx)
